@@ -24,10 +24,14 @@ drv = _drv_retry
 THEOREMS = ["Cog.Builder." + t for t in [
     "C16_which", "C16_which_mem", "C16_which_count", "C16_cover", "C16_no_extra", "C16_cover_each",
     "C16_exactly_once", "C16_cover_partial", "C16_cover_counterexample", "C16_total_partial",
-    "C16_total_counterexample",
+    "C16_total_counterexample", "C16_dangling_no_builder", "C16_dangling_panicked_before_fix",
 ]]
-PROPOSED = os.path.join(WORK, "proposed_findings_C16.json")
-WITNESSES = {"dangling": "0:0:pinned:dangling:", "optional-const-ref": "0:0:pinned:optional-const-ref:"}
+# witness -> (harness case, what the real code must still do with it)
+WITNESSES = {
+    "optional-const-ref": ("0:0:pinned:optional-const-ref:", "FAIL"),   # counterexample of C16_cover_full (known finding)
+    "alias-cycle": ("0:0:pinned:alias-cycle:", "diverge"),               # counterexample of C16_total_full
+    "dangling": ("0:0:pinned:dangling:", "ok (builders)"),               # fixed in /repo eed3e31: no builder, no panic
+}
 
 
 def vclass(v):
@@ -38,9 +42,6 @@ def vclass(v):
 
 def main():
     c = Check("C16")
-    if os.path.exists(PROPOSED):  # proposed entries, until merged into known_findings.json
-        have = {f["id"] for f in c.known}
-        c.known += [f for f in json.load(open(PROPOSED)).get("findings", []) if f.get("property") == "C16" and f["id"] not in have]
     c.trusted = [
         "Lean 4.33 kernel; axioms per theorem are listed in obligation_list (subset of propext, Classical.choice, Quot.sound)",
         "hand-written model lean/Cog/Builder/FromAST.lean of BuilderGenerator.FromAST (internal/ast/builder.go), tied by the c16-fromast correspondence streams (byte-equal VIR of the builders, panics and divergence included)",
@@ -81,7 +82,7 @@ def main():
         sys.exit(1 if bad else 0)
 
     # 1. the Lean counterexample witnesses, replayed on the real code (= pinned inputs of the findings)
-    for name, case in WITNESSES.items():
+    for name, (case, expect) in WITNESSES.items():
         row = harness(hb, "c16-eval", case=case)[0]
         lean_vir = drv(["c16witness " + name])[0]
         c.oblige("witness %s: Lean term and harness input are the same schemas (VIR text)" % name, "fromast " + lean_vir == row[0], row[0][:300])
@@ -90,9 +91,11 @@ def main():
         if row[2].startswith("FAIL"):
             if not c.match_known(row[0] + "\t" + row[2]):
                 c.violation({"kind": "oracle-failure", "stream": "c16-pinned", "case": case, "request": row[0], "impl": row[1], "oracle": row[2]})
+        if expect == "FAIL":
+            c.oblige("witness %s still fails on the real code (else: the model and its _counterexample theorem must change with the code)" % name,
+                     row[2].startswith("FAIL"), row[2])
         else:
-            log("witness %s no longer fails on the real code: the _counterexample theorem is about behaviour the code no longer has" % name)
-            c.oblige("witness %s still fails on the real code (else: model must change with the code)" % name, False, row[2])
+            c.oblige("witness %s: the real code still answers `%s`" % (name, expect), row[1] == expect, row[1][:300])
         c.count("c16-pinned", 1, [row[0]])
 
     # 2. correspondence + oracle
